@@ -52,7 +52,7 @@ def run(tier, seed):
     if tier == "quick":      # the four special pairs and a third of the state x follow-up pairs per quick run, chosen by the seed; all in the thorough tier
         fx = fx[:4] + [p for i, p in enumerate(fx[4:]) if i % 3 == seed % 3]
     return run_property(
-        "C11", tier, seed, ["C11.v", "M4link.v"], ["props/C11.vo", "props/M4link.vo"],
+        "C11", tier, seed, ["C11.v", "M4link.v", "C11step.v"], ["props/C11.vo", "props/M4link.vo", "props/C11step.vo"],
         profile={"deploy": 8, "deploy_fail": 2, "remove": 1, "restart": 1, "flap": 3, "rollout_deploy": 5, "rollout_set": 6,
                  "rollout_stop": 1, "pause": 4, "stop": 4, "resume": 4, "rollout_template": True},
         monitor="c11_ok h1 h2 k && c11_restart_step_ok h1 h2 k", n_quick=24, n_thorough=400, pair_restart=True, len_range=(3, 12), fixed=fx)
